@@ -107,6 +107,16 @@ func voucherAtoms() ([]AtomDef, []Derivation) {
 		equal("ext-size-eq", "curve / modulus size of manufacturer key and signer key are equal",
 			provAnd(hasProv("field:fdo.VoucherHeader.ManufacturerKey"), lacksProv("call:crypto.Signer.Public")),
 			provAnd(hasProv("call:crypto.Signer.Public"), lacksProv("field:fdo.VoucherHeader.ManufacturerKey"))),
+		boolTrue("ext-next-type-ok", "the next-owner key has the manufacturer key's type and size/curve", func(n string) bool { return strings.HasPrefix(n, "fdo.") }, 0,
+			func(m *Matcher, _ ssa.CallInstruction, args []ssa.Value) bool {
+				if len(args) != 2 {
+					return false
+				}
+				a, b := m.Prov(args[0]), m.Prov(args[1])
+				mfg := func(s ProvSet) bool { return s.Has("field:fdo.VoucherHeader.ManufacturerKey") && s.Has("call:fdo/protocol.PublicKey.Public") }
+				next := func(s ProvSet) bool { return s.Has("call:fdo/protocol.NewPublicKey") && s.Has("call:fdo/protocol.PublicKey.Public") }
+				return (mfg(a) && next(b)) || (mfg(b) && next(a))
+			}),
 		errNil("ext-signed", "the new entry was signed with the signer argument (Sign1.Sign err==nil)", named("fdo/cose.Sign1.Sign"),
 			func(m *Matcher, _ ssa.CallInstruction, args []ssa.Value) bool {
 				return len(args) >= 2 && paramOf("crypto.Signer")(m, args[1])
@@ -122,7 +132,7 @@ func voucherAtoms() ([]AtomDef, []Derivation) {
 		{"cch-ok", []Atom{"cch-eq"}},
 		{"devchain-ok", []Atom{"certchain-nil"}},
 		{"devchain-ok", []Atom{"x509-verify-ok"}},
-		{"ext-ok", []Atom{"ext-owner-key-eq", "ext-mfg-type-ok", "ext-size-eq", "ext-signed"}},
+		{"ext-ok", []Atom{"ext-owner-key-eq", "ext-mfg-type-ok", "ext-size-eq", "ext-next-type-ok", "ext-signed"}},
 	}
 	return atoms, der
 }
